@@ -610,6 +610,13 @@ fn nodes_run_in<S: Service, P: Pat<S>>(c: &NodesCase, obs: &mut Obs, domain: &Do
         holders[d].0 = None;
     }
     let got = match P::open(&extra, &name) {
+        // the only holder left: the service is gone with its last user (C06), nothing to exchange
+        Err(e) if m == 1 && e.contains("DoesNotExist") => {
+            obs.class("lim_nodes_single_holder_left_service_gone");
+            obs.nontrivial = true;
+            return Ok(());
+        }
+        Ok(Ok(_)) if m == 1 => fail!("lim.nodes.service_outlived_last_user", "{pat}: the only holder dropped its handle and the service can still be opened"),
         Ok(Ok(f)) => f,
         Ok(Err(())) => fail!("lim.nodes.not_lifted", "{pat}: holder {d} of {m} dropped its handle, the next node is still refused with ExceedsMaxNumberOfNodes"),
         Err(e) => fail!("lim.nodes.open", "{pat}: open after holder {d} dropped its handle failed: {e}"),
